@@ -137,6 +137,10 @@ def check_cfg(ctx, fx, cfg):
     # the ticks its own timers keep adding
     from props.c03 import run_loops
     run_loops(ctx, fx, "R10.6", {"L9"})
+    # R10.7 (shared with C15) a timer delivers as long as its actor lives: it submits through a weak sender, whose upgrade needs both
+    # halves of the channel alive — so every strong handle kind that can be the last one keeping the actor alive keeps both
+    from props import c15 as _c15
+    core.shared(ctx, "R10.7", _c15.check_strong_kinds, ctx, fx, cfg, "R10.7")
     per, seen = check_timer_protocol(ctx, fx, cfg)
     for f, crs, b, api in per:
         # the submit's result must be looked at (periodic): is_err/is_ok or a match
@@ -217,8 +221,12 @@ def check_cfg(ctx, fx, cfg):
             continue
         fam = graph.family(fx, f["def"])
         found = False
+        import inline
+
+        def _sleep_helpers(g_, t_):  # private helpers, and the crate's own `runtime::sleep` shim (`crate::runtime::sleep(d).await`)
+            return inline.not_public(g_, t_) or g_["def"].startswith("runtime::")
         for g in fam:
-            b = ctx.body(fx, g)
+            b = inline.body(ctx, fx, g, _sleep_helpers)
             for bi, t in b.normal_calls():
                 c = t.get("callee") or ""
                 if t.get("callee_local") or not t["args"]:
